@@ -285,6 +285,18 @@ func random(e *vlib.Env) vlib.Result {
 	for i, n := 0, r.Range(1, 5); i < n; i++ {
 		prog.Subs = append(prog.Subs, gcw.SubSpec{Topic: r.Intn(prog.Topics), During: r.Chance(0.75), Consumers: 1, Slow: r.Intn(3), NestedTo: -1, CancelAt: -1, StopAfter: -1})
 	}
+	// sibling subscriptions that come and go (cancelled at a random moment / after k receives): they are not judged
+	// themselves, but their unsubscribing must not disturb the replay and delivery of the others
+	for i, n := 0, r.Intn(3); i < n; i++ {
+		sib := gcw.SubSpec{Topic: r.Intn(prog.Topics), During: r.Bool(), Consumers: 1, NestedTo: -1, CancelAt: -1, StopAfter: -1}
+		if r.Bool() {
+			sib.CancelFree = true
+		} else {
+			sib.CancelAt = r.Intn(3)
+		}
+		prog.Subs = append(prog.Subs, sib)
+	}
+	prog.EditAfterPublish = r.Chance(0.3)
 	shape := fmt.Sprintf("b%d/k%v/T%d/%v/%v", prog.Cfg.OutputChannelBuffer, prog.Cfg.BlockPublishUntilSubscriberAck, prog.Topics, prog.Pubs, prog.Subs)
 	res := vlib.Result{Class: fmt.Sprintf("random/buf%d/blocking=%v", prog.Cfg.OutputChannelBuffer, prog.Cfg.BlockPublishUntilSubscriberAck), Spec: shape}
 	ctl := vlib.NewCtl(r.Uint64(), prog.YieldP, prog.YieldUs)
@@ -311,6 +323,9 @@ func random(e *vlib.Env) vlib.Result {
 		subs := rn.SubRecs()
 		overlap := 0
 		for _, s := range subs {
+			if s.CancelStart.Load() != 0 {
+				continue // a cancelled sibling: only "created before Close and left open" subscriptions are judged
+			}
 			want := map[string]bool{}
 			for _, p := range pubs {
 				if p.Topic == s.Spec.Topic && p.Err == "" && p.Panic == "" && p.End != 0 {
@@ -324,6 +339,17 @@ func random(e *vlib.Env) vlib.Result {
 			for _, d := range s.Dels() {
 				got[d.UUID]++
 				res.Events++
+				for _, p := range pubs {
+					if p.UUID == d.UUID {
+						m := message.NewMessage(d.Snap.UUID, d.Snap.Payload)
+						for k, v := range d.Snap.Metadata {
+							m.Metadata[k] = v
+						}
+						if !p.OrigSnap.SameValue(m) {
+							res.Fail("replay-differs", "subscription %d received %s with a value that differs from the message as it was published: got %+v, published %+v", s.ID, d.UUID, d.Snap, p.OrigSnap)
+						}
+					}
+				}
 			}
 			var missing, dup []string
 			for u := range want {
